@@ -134,6 +134,15 @@ def run(cx):
                 okp = match(f'(field point (unwrap (call *{C}::at_length (param curve) (itervar (param positions)))))', v) is not None or \
                     match(f'(call *::point (unwrap (call *{C}::at_length (param curve) (itervar (param positions)))))', v) is not None
             cx.ob('EXPR', f'{C}::resample_at_positions:points', okp, 'point k of the result is at_length(positions[k]).point, in order (on the source curve by construction)', where=b.file)
+            # every position yields a point: the push is on every cycle of the loop and a position off the curve fails loudly
+            # (Option::unwrap) instead of being skipped silently
+            oku = False
+            if len(pushes) == 1:
+                lps = [lp for lp in b.loops() if pushes[0].bb in lp[1]]
+                uw = [u for u in b.calls('Option::unwrap|Option::expect') if match(f'(call *{C}::at_length (param curve) _)', cx.arg(u, 0)) is not None]
+                oku = len(lps) == 1 and all(b.dominates(pushes[0].bb, x) for x in lps[0][2]) and len(uw) == 1 and b.dominates(uw[0].bb, pushes[0].bb)
+            cx.ob('ORDER', f'{C}::resample_at_positions:every-position', oku,
+                  'every requested position produces exactly one vertex (unconditional push, at_length(..).unwrap()): a position that misses the curve cannot be dropped silently', where=b.file)
             r = cx.retval(b)
             if d == '2D':
                 okr = match('(call *Curve2::from_points $pts (field tol (param curve)) (field is_closed (param curve)))', r) is not None
@@ -216,9 +225,34 @@ def run(cx):
         cx.ob('GUARD', 'Rdp::simplify:recursion', okr, 'recursion happens only under max_dist > tol, on (i0, max_i) and (max_i, i1)', where=b.file, found=str(sorted(spans)))
         # the farthest-point search ranges over the open interval and measures against the chord through the kept ends
         sp = b.calls('*SurfacePoint::new_normalize')
-        oksp = len(sp) == 1 and match('(index (self points) (param i0))', cx.arg(sp[0], 0)) is not None and \
-            match('(call OPoint::sub (index (self points) (param i1)) (index (self points) (param i0)))', cx.arg(sp[0], 1)) is not None
+        CHORD = '(call OPoint::sub (index (self points) (param i1)) (index (self points) (param i0)))'
+        oksp = len(sp) == 1 and match('(index (self points) (param i0))', cx.arg(sp[0], 0)) is not None and match(CHORD, cx.arg(sp[0], 1)) is not None
         cx.ob('EXPR', 'Rdp::simplify:chord', oksp, 'deviations are measured from the line through points[i0] and points[i1]', where=b.file)
+        # a closed curve hands coincident end points to the first pass: the chord direction may be normalised only when the
+        # chord is non-degenerate (otherwise every deviation is NaN, nothing is kept and the rebuilt curve has one vertex)
+        okg = len(sp) == 1 and (cx.guarded(b, sp[0].bb, f'(lt 0.0 (call Matrix::norm {CHORD}))', True) is not None or
+                                cx.guarded(b, sp[0].bb, '(lt _ (call *points::dist (index (self points) (param i0)) (index (self points) (param i1))))', True) is not None or
+                                cx.guarded(b, sp[0].bb, f'(lt _ (call Matrix::norm {CHORD}))', True) is not None)
+        cx.ob('GUARD', 'Rdp::simplify:degenerate-chord', okg,
+              'the chord through the two kept end points is normalised only when it has non-zero length (closed curves start with coincident end points); otherwise another measure is used',
+              where=sp[0] if sp else b.file, found='; '.join(cx.show_guards(b, sp[0].bb))[:300] if sp else None)
+        # the quantity compared with the tolerance is a plain distance (same units as tol): |projection(p_i) - p_i|
+        devs = [cx.call(c) for c in b.calls('Matrix::norm|Matrix::magnitude|Matrix::norm_squared|*points::dist')]
+        devs = [d for d in devs if find('(itervar _)', d) is not None]      # the per-vertex measures (the chord-length test is not one)
+        okd = 1 <= len(devs) <= 2 and all(
+            match('(call Matrix::norm (call OPoint::sub (call *SurfacePoint::projection _ (index (self points) $i)) (index (self points) $i)))', d) is not None or
+            match('(call Matrix::norm (call OPoint::sub (index (self points) $i) (index (self points) (param i0))))', d) is not None for d in devs)
+        cmpok = False
+        for s in rec:
+            for a, p in cx.guards(b, s.bb):
+                if p and a[0] == 'lt' and match('(self tol)', a[1]) is not None:
+                    car = a[2]
+                    lp = [x for x in subterms(car) if x[0] == 'loop']
+                    vals = [simplify(b.dag().carried(x[1], x[2])) for x in lp]
+                    cmpok = bool(vals) and all(find('(call Matrix::norm _)', v) is not None and find('(call Matrix::norm_squared _)', v) is None for v in vals)
+        cx.ob('EXPR', 'Rdp::simplify:deviation-is-a-distance', okd and cmpok,
+              'the deviation compared with tol is the distance |projection(p_i) - p_i| itself (not its square or another monotone function): "within e" is meant in length units', where=b.file,
+              found='; '.join(show(d)[:160] for d in devs))
     b = cx.fn('common::points::Rdp::generate_points')
     if b:
         pushes = b.calls('Vec::push')
